@@ -358,6 +358,19 @@ class ExprMixin(object):
         return res
 
     def ex_Compare(self, e, st):
+        # == / != between objects whose class defines __eq__ under contract: dispatched (may raise, e.g. ValueError)
+        if len(e.ops) == 1 and isinstance(e.ops[0], (ast.Eq, ast.NotEq)):
+            res = []
+            handled = True
+            for st1, (a, b) in self.ev_list([e.left, e.comparators[0]], st):
+                if isinstance(a.ty, Ref) and (a.ty.cls, "__eq__") in self.reg.methods and not self.in_spec:
+                    for st2, r in self.call_method(a, "__eq__", [b], {}, st1, e):
+                        res.append((st2, V(BOOL, truthy(r) if isinstance(e.ops[0], ast.Eq) else z3.Not(truthy(r)))))
+                else:
+                    handled = False
+                    break
+            if handled:
+                return res
         res = []
         operands = [e.left] + list(e.comparators)
         for st1, vals in self.ev_list(operands, st):
